@@ -194,11 +194,13 @@ pub struct LoginParams {
     pub auth_cookie_delay: Duration,
     /// the shared secret this client chooses
     pub secret: [u8; 16],
+    /// what the client answers to the session cookie request (None: it has no such cookie)
+    pub session_cookie: Option<Vec<u8>>,
 }
 
 impl Default for LoginParams {
     fn default() -> Self {
-        Self { intent: 2, host: "play.example".into(), port: 25565, name: "NetPlayer".into(), uuid: 0x069a79f4_44e9_4726_a5be_fca90e38aaf5, auth_cookie: None, wait: Duration::from_secs(2), auth_cookie_delay: Duration::ZERO, secret: SECRET16 }
+        Self { intent: 2, host: "play.example".into(), port: 25565, name: "NetPlayer".into(), uuid: 0x069a79f4_44e9_4726_a5be_fca90e38aaf5, auth_cookie: None, wait: Duration::from_secs(2), auth_cookie_delay: Duration::ZERO, secret: SECRET16, session_cookie: None }
     }
 }
 
@@ -234,7 +236,7 @@ impl McClient {
             out.stage = Stage::LoginStartSent;
         }
         if out.stage < Stage::EncryptionRequestReceived && until >= Stage::EncryptionRequestReceived {
-            tri!(self.send(&codec::sb_login_cookie_response("passage:session", None)).await.map_err(io));
+            tri!(self.send(&codec::sb_login_cookie_response("passage:session", p.session_cookie.as_deref())).await.map_err(io));
             loop {
                 let pk = tri!(self.read_packet(p.wait).await);
                 out.packets.push(pk.clone());
